@@ -83,6 +83,7 @@ TraceNext == /\ (TraceFixture \/ TraceDetect \/ TraceYield \/ TraceRaise \/ Trac
              /\ Inv_EncryptedRejected'
              /\ Inv_EncryptedNeverYields'
              /\ Inv_PlainNeverEncrypted'
+             /\ Inv_EmptyPasswordExtracts'
 TraceSpec == TraceInit /\ [][TraceNext]_tvars
 
 TraceAccept ==
